@@ -347,6 +347,36 @@ func (ck *checker) compare(in *input, mode string, od bool, rr realRun, truth ma
 		}
 		leaves := splitInts(kv["leaves"])
 		rep.Count(fmt.Sprintf("model-guaranteed-leaves<=%d", bucket(len(leaves))))
+		if a := e.(*df.CallNodeArg); a.Index() == 1 {
+			// how much of the native ground truth the PROVED closure already explains (evidence only)
+			sid := sinkID(a.ParentNode())
+			proved := map[int]bool{}
+			for _, l := range leaves {
+				n := d.nodes[l]
+				if n.kind == kRet && strings.HasPrefix(n.fn, "vprog.src") {
+					if k, err := strconv.Atoi(strings.TrimPrefix(n.fn, "vprog.src")); err == nil {
+						proved[k] = true
+					}
+				}
+				if n.kind == kArg && n.isConstArg {
+					if c, ok := n.gn.(*df.CallNodeArg).Value().(*ssa.Const); ok && c.Value != nil && c.Value.Kind() == constant.String {
+						for _, m := range marker.FindAllStringSubmatch(constant.StringVal(c.Value), -1) {
+							k, _ := strconv.Atoi(m[1])
+							proved[k] = true
+						}
+					}
+				}
+			}
+			for k := range truth[sid] {
+				rep.Dist["native-origins-"+mode]++
+				if proved[k] {
+					rep.Dist["native-origins-inside-proved-closure-"+mode]++
+				}
+			}
+			if os.Getenv("C03_DEBUG") != "" && mode == "eager" {
+				fmt.Printf("DEBUG sink %d ops=%s native=%s proved=%s keys=%s\n", sid, strings.Join(in.sinkOps[sid], ","), setStr(truth[sid]), setStr(proved), kv["keys"])
+			}
+		}
 		if !graphHyp {
 			continue
 		}
